@@ -8,6 +8,7 @@ pub use cglue::*;
 #[global_allocator]
 static A: verifkit::alloc::Tracking = verifkit::alloc::Tracking;
 
+mod boxes;
 mod c0607;
 mod c10;
 mod fam;
